@@ -309,6 +309,15 @@ def run(ctx):
 
     # (3) the stream-level model on concrete partitions, with empty chunks and random schedules
     pool = [c for c in allc if len(c['data']) >= 2] + inv
+    # inputs of many short lines, cut into a first chunk of several lines and then chunks of about one line: with a slow consumer a
+    # backlog sits in the reader's record queue while single records keep arriving (the queue must stay first-in first-out)
+    multi = []
+    for text in ('a\nb\nc\nd\ne\nf\n', 'a,1\r\nb,2\r\nc,3\r\nd,4\r\ne,5', '1\n2\n3\n4\n5\n6\n7\n8', '#x\na\n#y\nb\nc\nd\n\ne\n'):
+        for pol, delim in (('simple', ','), ('monocolumn', '')):
+            for comment in (None, '#'):
+                multi.append({'policy': pol, 'delim': delim, 'comment': comment, 'header': False, 'modifier': None, 'encoding': 'utf-8',
+                              'data': list(text.encode('utf-8')), '_multi': True})
+    pool = pool + multi * 12
     nsamp = 5000 if ctx.tier == 'quick' else 60000
     ones, one_args, lines_args, lines_idx, dec_args = [], [], [], [], []
     tab_of = {id(c): t for c, t in zip(allc, tabs)}
@@ -318,9 +327,16 @@ def run(ctx):
         c = rng.choice(pool)
         allow_empty = rng.random() < 0.4
         pieces = random_partition(rng, c['data'], allow_empty)
-        mode = 'obj' if allow_empty else rng.choice(['from', 'push'])
+        mode = 'obj' if allow_empty else rng.choice(['from', 'push', 'timed'])
+        if c.get('_multi'):
+            d = c['data']
+            cut = [i + 1 for i, b in enumerate(d) if b == 10]
+            k = rng.randint(2, max(2, len(cut) - 2))
+            bounds = [0, cut[min(k, len(cut)) - 1]] + [x for x in cut[k:]] + ([len(d)] if cut[-1] != len(d) else [])
+            pieces = [d[a:b] for a, b in zip(bounds, bounds[1:]) if b > a]
+            allow_empty, mode = False, 'timed'
         c1 = {k: c.get(k) for k in KEYS}
-        c1.update(kind='one', pieces=pieces, mode=mode, data=c['data'])
+        c1.update(kind='one', pieces=pieces, mode=mode, data=c['data'], slow=rng.choice([1, 1, 2]) if c.get('_multi') else rng.choice([0, 0, 1, 2]))      # consumer pace: get_all_records, or a tick or two between records
         ones.append(c1)
         srcs.append(c)
         sched = [[p, rng.random() < 0.5] for p in pieces]
